@@ -288,11 +288,16 @@ class _Canon(ast.NodeTransformer):
                     and isinstance(s.value, ast.Tuple) and len(s.value.elts) == len(s.targets[0].elts) \
                     and all(isinstance(t, ast.Name) for t in s.targets[0].elts) \
                     and not any(isinstance(v, ast.Starred) for v in s.value.elts):
-                names = {t.id for t in s.targets[0].elts}
-                read = {x.id for v in s.value.elts for x in ast.walk(v) if isinstance(x, ast.Name)}
-                if not (names & read) and len(names) == len(s.targets[0].elts):
-                    for t, v in zip(s.targets[0].elts, s.value.elts):
+                pairs = list(zip(s.targets[0].elts, s.value.elts))
+                # positions that assign a name to itself (`a, b = a, f(a)`) do nothing and do not block the split
+                live = [(t, v) for t, v in pairs if not (isinstance(v, ast.Name) and v.id == t.id)]
+                names = {t.id for t, _ in live}
+                read = {x.id for _, v in live for x in ast.walk(v) if isinstance(x, ast.Name)}
+                if not (names & read) and len(names) == len(live) and len({t.id for t, _ in pairs}) == len(pairs):
+                    for t, v in live:
                         out.append(ast.copy_location(ast.Assign(targets=[t], value=v), s))
+                    if not live:
+                        out.append(ast.copy_location(ast.Pass(), s))
                     continue
             out.append(s)
         return out
